@@ -19,6 +19,8 @@ Pool ==
     VDbl(<<16368, 0, 0, 0>>), VDbl(<<49136, 0, 0, 0>>), VDbl(<<16352, 0, 0, 0>>), VDbl(<<16376, 0, 0, 0>>),
     VDbl(<<17216, 0, 0, 0>>), VDbl(<<17216, 0, 0, 1>>), VDbl(<<17376, 0, 0, 0>>), VDbl(<<50144, 0, 0, 0>>), VDbl(<<17392, 0, 0, 0>>),
     VDbl(<<0, 0, 0, 1>>), VDbl(<<32311, 58428, 34816, 30108>>),
+    \* negative non-integers next to small negative integers: -1.5 -0.5 -2.5 -3.25 with -2 and -3
+    VDbl(<<49144, 0, 0, 0>>), VDbl(<<49120, 0, 0, 0>>), VDbl(<<49156, 0, 0, 0>>), VDbl(<<49162, 0, 0, 0>>), VIntN(-2), VIntN(-3),
     VStr(<< >>), VStr(<<97>>), VStr(<<97, 98>>), VStr(<<98>>), VStr(<<233>>), VStr(<<128049>>), VStr(<<65535>>),
     VBool(FALSE), VBool(TRUE), VNull, VBytes(<< >>), VBytes(<<97>>),
     VList(<< >>), VList(<<VIntN(1)>>), VList(<<VUintN(1)>>), VList(<<VDbl(<<32760, 0, 0, 0>>)>>),
